@@ -53,3 +53,17 @@ func SameNamedFiles() int {
 	r += dep2.U().V //SILENT
 	return r
 }
+
+func SameObjectPathInTwoDependencies() int {
+	r := dep.W().V //SILENT
+	r += dep2.W().V //REPORT
+	r += dep.X(true).V //REPORT
+	r += dep2.X(true).V //REPORT
+	r += dep.Q{}.Get(true).V //REPORT
+	r += dep2.Q{}.Get(true).V //REPORT
+	r += dep.NewQ().F.V //REPORT
+	r += dep2.NewQ().F.V //REPORT
+	r += dep.GV.V //REPORT
+	r += dep2.GV.V //REPORT
+	return r
+}
